@@ -510,3 +510,17 @@ package meta
 //@   property C02
 //@   valid ErrObjectWasNotRemoved != nil && ErrReviveFromContainerGarbage != nil
 //@   ensures [every_revival_takes_one_off_the_garbage_counter] err == nil ==> garbageCounterTakenDown()
+
+// The recount of the payload estimate uses the same test as the live updates: an object's
+// payload counts unless the object carries a garbage mark or a tombstone - the verdict of
+// the garbage index (inGarbage), not the object's status as seen by readers (a live lock
+// makes a marked object "available" to readers while its payload has been taken off).
+//@ ghost pred recountFoundNoMark() bool
+//@ callrule c02_recount_garbage_verdict in syncContainerCounters$1
+//@   property C02
+//@   callee metabase.inGarbage
+//@   pureeffect
+//@   defines result == statusAvailable ==> recountFoundNoMark()
+//@ func syncContainerCounters$1
+//@   property C02
+//@   ensures [payload_counted_only_for_objects_without_a_mark] deref(usersPayloadCounter) != old(deref(usersPayloadCounter)) ==> recountFoundNoMark()
